@@ -252,6 +252,102 @@ func ruleHeapShape(r *Report) {
 			r.Bad(rh, key, fn.Pos(), "the heap order is not 'comparator(i, j) < 0': the smallest head is not at the root")
 		}
 	}
+	// the sift loops move a hole: slots are copied one way (heap[i] = heap[j]) and the sifted element, saved before the
+	// loop, is stored once at the end. Then the comparison that ends the loop has to look at the saved element — the slot it
+	// came from is overwritten by the first copy
+	for _, k := range []string{"pq.PriorityQueue.upHeap", "pq.PriorityQueue.downHeap"} {
+		fn := r.NeedFunc(rh, k)
+		if fn == nil {
+			continue
+		}
+		key := rh + "/" + k + "/sift-compares-saved-element"
+		inLoop := func(b *ssa.BasicBlock) bool {
+			for _, su := range b.Succs {
+				if reachFrom(su, nil)[b] {
+					return true
+				}
+			}
+			return false
+		}
+		isHeapSlot := func(v ssa.Value) bool {
+			ia, ok := v.(*ssa.IndexAddr)
+			if !ok {
+				return false
+			}
+			_, f, _, isF := loadOfField(ia.X)
+			return isF && f == "heap"
+		}
+		isSlotLoad := func(v ssa.Value) bool {
+			u, ok := v.(*ssa.UnOp)
+			return ok && u.Op == token.MUL && isHeapSlot(u.X)
+		}
+		holeCopies := 0
+		var saved ssa.Value
+		eachInstr(fn, func(s Site) {
+			st, ok := s.Instr.(*ssa.Store)
+			if !ok || !isHeapSlot(st.Addr) || !isSlotLoad(st.Val) {
+				return
+			}
+			ld := st.Val.(*ssa.UnOp)
+			if inLoop(s.Block) && ld.Block() == s.Block {
+				// a swap writes the other slot as well: that is not a hole
+				from := ld.X.(*ssa.IndexAddr).Index
+				swap := false
+				for _, ins := range s.Block.Instrs {
+					if o, isS := ins.(*ssa.Store); isS && o != st && isHeapSlot(o.Addr) && o.Addr.(*ssa.IndexAddr).Index == from {
+						swap = true
+					}
+				}
+				if !swap {
+					holeCopies++
+				}
+			} else if !inLoop(s.Block) && !inLoop(ld.Block()) && ld.Block() != s.Block {
+				saved = st.Val
+			}
+		})
+		switch {
+		case holeCopies == 0:
+			r.OK(rh, key, fn.Pos(), "no one-way slot copies in a loop (not the hole technique)")
+		case saved == nil:
+			r.Unk(rh, key, fn.Pos(), "slots are copied one way inside the loop but the saved element that is stored behind the loop was not recognised")
+		default:
+			bad := ""
+			n := 0
+			for _, b := range liveBlocks(fn) {
+				if !inLoop(b) {
+					continue
+				}
+				cnd, tS, fS, _, _, ok := effCond(b)
+				if !ok {
+					continue
+				}
+				c, isC := cnd.(*ssa.Call)
+				if !isC || c.Call.StaticCallee() == nil || !strings.HasSuffix(FuncKey(genericBody(c.Call.StaticCallee())), "PriorityQueue.lessThan") {
+					continue
+				}
+				if inLoop(tS) && reachFrom(tS, nil)[b] && inLoop(fS) && reachFrom(fS, nil)[b] {
+					continue // does not leave the loop (choice of the smaller child)
+				}
+				n++
+				has := false
+				for _, a := range c.Call.Args {
+					if a == saved {
+						has = true
+					}
+				}
+				if !has {
+					bad = r.P.Pos(c.Pos())
+				}
+			}
+			if bad != "" {
+				r.Bad(rh, key, fn.Pos(), "the comparison that ends the sift loop ("+bad+") does not look at the element that is being sifted (saved before the loop) but at a slot the loop has already overwritten: an element rises or sinks at most one level, the root is not the smallest head — a merge over four or more inputs emits keys out of order, the table writer refuses them and the compaction goroutine stops the process")
+			} else if n == 0 {
+				r.Unk(rh, key, fn.Pos(), "no loop-ending comparison found")
+			} else {
+				r.OK(rh, key, fn.Pos(), "the loop-ending comparison uses the saved element")
+			}
+		}
+	}
 	if fn := r.NeedFunc(rh, "pq.PriorityQueue.Next"); fn != nil {
 		fill := CallsIn(fn, Keys("pq.PriorityQueue.fillNext"))
 		key := rh + "/pq.PriorityQueue.Next/read-before-refill"
